@@ -40,6 +40,21 @@ def check_valid(inp):
         fn(o, **kw)
     except Exception as e:  # noqa: BLE001
         return "%s.%s raised %s on a valid input: %s" % (inp["task"], inp["entry"], type(e).__name__, str(e)[:120])
+    # the same (valid) annotation objects scored again, by this and by the task's other entry points: still valid,
+    # still scored
+    for e2 in [inp["entry"]] + list(inp.get("then", [])):
+        try:
+            FX.ENTRIES[inp["task"]][e2](o, **(kw if e2 == inp["entry"] else {}))
+        except Exception as e:  # noqa: BLE001
+            # only a failure of THIS claim when the entry point scores a fresh copy of the same annotation (an entry
+            # that rejects the fresh copy as well is reported under its own input)
+            fn2, o2, _ = FX.build(dict(inp, entry=e2, kw=(inp.get("kw") if e2 == inp["entry"] else None)))
+            try:
+                fn2(o2, **(kw if e2 == inp["entry"] else {}))
+            except Exception:  # noqa: BLE001
+                continue
+            return ("%s.%s raised %s when the same valid annotation objects were scored again after %s.%s: %s"
+                    % (inp["task"], e2, type(e).__name__, inp["task"], inp["entry"], str(e)[:120]))
     return None
 
 
@@ -163,9 +178,11 @@ def gen_valid(task):
                 ei = [list(r) for r in base["est"][0]]
                 ei[-1][1] = T.S(T.F(ei[-1][1]) - Fr(1, 20000))
                 base["est"] = [ei, base["est"][1]]
+            ok_entries = [e for e in entries if admissible(task, e, base)]
             for e in entries:
                 if admissible(task, e, base):
-                    yield {"task": task, "entry": e, "fault": None, "base": base}
+                    then = [x for x in ok_entries if x != e and rng.random() < 0.3][:2]
+                    yield {"task": task, "entry": e, "fault": None, "base": base, "then": then}
                     for kw in VALID_KW.get((task, e), []):
                         if rng.random() < 0.5:
                             yield {"task": task, "entry": e, "fault": None, "base": base, "kw": kw}
